@@ -167,6 +167,13 @@ Apply(lam, vals, env) ==
                             vals[CHOOSE i \in 1..Len(lam.p) : lam.p[i] = x /\
                                    \A j \in (i + 1)..Len(lam.p) : lam.p[j] # x]] @@ env)
 
+(* the lambda of Select / Where / SelectMany: one element parameter, any further parameters carry defaults *)
+(* (lambda e, k=2: ...), which Python evaluates where the lambda is written                               *)
+ApplyOp(lam, v, env) ==
+    IF lam.n = 0 THEN Apply(lam, <<v>>, env)
+    ELSE LET dvs == [i \in 1..lam.n |-> Eval(lam.a[1 + i], env)] IN
+         IF AnyBad(dvs) THEN FirstBad(dvs) ELSE Apply(lam, <<v>> \o dvs, env)
+
 RECURSIVE Fold(_, _, _, _, _)
 Fold(lam, acc, es, i, env) ==
     IF i > Len(es) THEN acc
@@ -195,9 +202,9 @@ SeqOp(op, srcv, args, kwn, kwv, env) ==
     ELSE IF kwn # <<>> THEN Unm("operator-keywords")
     ELSE IF op \in {"Select", "Where", "SelectMany"} THEN
         IF Len(args) # 1 THEN Unm("operator-arity")
-        ELSE IF args[1].k # "lam" \/ Len(args[1].p) # 1 \/ args[1].n # 0 THEN Unm("operator-nonlambda")
+        ELSE IF args[1].k # "lam" \/ Len(args[1].p) # 1 + args[1].n THEN Unm("operator-nonlambda")
         ELSE IF srcv.t # "list" THEN Err("TypeError-notseq")
-        ELSE LET rs == [i \in 1..Len(srcv.e) |-> Apply(args[1], <<srcv.e[i]>>, env)] IN
+        ELSE LET rs == [i \in 1..Len(srcv.e) |-> ApplyOp(args[1], srcv.e[i], env)] IN
              IF AnyBad(rs) THEN FirstBad(rs)
              ELSE CASE op = "Select" -> VList(rs)
                     [] op = "Where"  -> VList(Filter(srcv.e, [i \in 1..Len(rs) |-> Truthy(rs[i])]))
